@@ -2,7 +2,7 @@
 # build.sh <workdir>: instrument /repo's working tree and build the explorer test binary.
 set -e
 export GOFLAGS=-mod=mod GOPROXY=off GOSUMDB=off GOTOOLCHAIN=local GOCACHE=/verif/.gocache
-W=${1:-/verif/.work/cur}
+W=$(realpath -m ${1:-/verif/.work/cur})
 mkdir -p "$W"
 /verif/bin/vinstr -out "$W/ov" >/dev/null
 cd /verif/harness
